@@ -1,5 +1,6 @@
 // C02 — vector-matrix product (VMP) equals the naive polynomial product for all shapes.
 // Oracle: exact negacyclic product per (row, column), summed in 128-bit integers.
+#include <pthread.h>
 #include "lib.h"
 #include "oracle.h"
 
@@ -146,6 +147,81 @@ static void one_case(uint64_t N, uint64_t nrows, uint64_t ncols, uint64_t a_size
   case_end(row_max >= 1 && col_max >= 1);
 }
 
+// several threads prepare and apply their own matrices at the same time through one shared module: every prepared
+// matrix and every product must be bit for bit what the same thread's data gives when prepared / applied alone
+typedef struct {
+  const MODULE* mod;
+  uint64_t N, nrows, ncols;
+  int64_t *mat, *a;
+  uint8_t *pm, *pm_ref, *tp, *ta;
+  double *rd, *rd_ref;
+  size_t pmb, rdb;
+  int iters;
+  uint64_t bad_prepare, bad_apply;
+  pthread_barrier_t* bar;
+} cvmp_t;
+static void* cvmp_worker(void* arg) {
+  cvmp_t* c = arg;
+  pthread_barrier_wait(c->bar);
+  for (int it = 0; it < c->iters; it++) {
+    memset(c->pm, 0xA5, c->pmb);
+    vmp_prepare_contiguous(c->mod, (VMP_PMAT*)c->pm, c->mat, c->nrows, c->ncols, c->tp);
+    if (memcmp(c->pm, c->pm_ref, c->pmb)) c->bad_prepare++;
+    vmp_apply_dft(c->mod, (VEC_ZNX_DFT*)c->rd, c->ncols, c->a, c->nrows, c->N, (VMP_PMAT*)c->pm_ref, c->nrows, c->ncols, c->ta);
+    if (memcmp(c->rd, c->rd_ref, c->rdb)) c->bad_apply++;
+  }
+  return 0;
+}
+static void concurrent_case(uint64_t N, int native, int T, unsigned rep) {
+  char key[96];
+  snprintf(key, sizeof key, "vmp_prepare/apply|%d threads,private matrices%s", T, native ? "" : ",generic");
+  if (!case_begin(key, "N=%" PRIu64 " rep=%u", N, rep)) return;
+  rng_t* r = crng();
+  const MODULE* mod = get_module(N, FFT64, native);
+  cvmp_t c[16];
+  pthread_t tid[16];
+  pthread_barrier_t bar;
+  pthread_barrier_init(&bar, 0, (unsigned)T);
+  for (int t = 0; t < T; t++) {
+    cvmp_t* x = &c[t];
+    memset(x, 0, sizeof *x);
+    x->mod = mod;
+    x->N = N;
+    x->nrows = 1 + rng_u64(r) % 3;
+    x->ncols = 1 + rng_u64(r) % 3;
+    x->bar = &bar;
+    x->iters = N <= 64 ? 300 : (N <= 2048 ? 40 : 6);
+    x->mat = malloc(x->nrows * x->ncols * N * 8);
+    x->a = malloc(x->nrows * N * 8);
+    for (uint64_t i = 0; i < x->nrows * x->ncols * N; i++) x->mat[i] = rng_range(r, -50, 50);
+    for (uint64_t i = 0; i < x->nrows * N; i++) x->a[i] = rng_range(r, -1000, 1000);
+    x->pmb = bytes_of_vmp_pmat(mod, x->nrows, x->ncols);
+    x->rdb = bytes_of_vec_znx_dft(mod, x->ncols);
+    x->pm = malloc(x->pmb + 64);
+    x->pm_ref = malloc(x->pmb + 64);
+    x->tp = malloc(vmp_prepare_contiguous_tmp_bytes(mod, x->nrows, x->ncols) + 64);
+    x->ta = malloc(vmp_apply_dft_tmp_bytes(mod, x->ncols, x->nrows, x->nrows, x->ncols) + 64);
+    x->rd = malloc(x->rdb + 64);
+    x->rd_ref = malloc(x->rdb + 64);
+    memset(x->pm_ref, 0xA5, x->pmb);
+    vmp_prepare_contiguous(mod, (VMP_PMAT*)x->pm_ref, x->mat, x->nrows, x->ncols, x->tp);
+    vmp_apply_dft(mod, (VEC_ZNX_DFT*)x->rd_ref, x->ncols, x->a, x->nrows, N, (VMP_PMAT*)x->pm_ref, x->nrows, x->ncols, x->ta);
+  }
+  for (int t = 0; t < T; t++) pthread_create(&tid[t], 0, cvmp_worker, &c[t]);
+  for (int t = 0; t < T; t++) pthread_join(tid[t], 0);
+  pthread_barrier_destroy(&bar);
+  uint64_t calls = 0;
+  for (int t = 0; t < T; t++) {
+    if (c[t].bad_prepare) viol("differential", "vmp_prepare_contiguous (%s, N=%" PRIu64 "): %" PRIu64 " of %d prepared matrices differ from the one prepared alone while %d threads prepare their own", native ? "native" : "generic", N, c[t].bad_prepare, c[t].iters, T);
+    if (c[t].bad_apply) viol("differential", "vmp_apply_dft (%s, N=%" PRIu64 "): %" PRIu64 " of %d products differ from the product computed alone while %d threads run", native ? "native" : "generic", N, c[t].bad_apply, c[t].iters, T);
+    calls += 2 * (uint64_t)c[t].iters;
+    free(c[t].mat); free(c[t].a); free(c[t].pm); free(c[t].pm_ref); free(c[t].tp); free(c[t].ta); free(c[t].rd); free(c[t].rd_ref);
+  }
+  cnt("concurrent_prepare_apply_calls", calls);
+  sample("%d threads, %" PRIu64 " prepare/apply calls, all bit-identical to the sequential ones", T, calls);
+  case_end(1);
+}
+
 void run_C02(void) {
   const int th = G.thorough;
   unsigned ctr = 0;
@@ -174,6 +250,31 @@ void run_C02(void) {
       one_case(N, 1 + h % lim, 1 + (h >> 4) % lim, (h >> 8) % (lim + 2), (h >> 12) % (lim + 2), (unsigned)(h >> 16) % 3, (int)((h >> 20) & 1), (int)((h >> 21) % 3 == 0), t);
     }
   }
+  // very tall matrices: row counts around the powers of two where a blocked implementation would change chunk
+  // (64, 128, 256, 512), odd and even column counts, a_size below / at / above nrows
+  {
+    static const uint64_t TALL[] = {63, 64, 65, 127, 128, 129, 130, 255, 256, 257, 300, 513};
+    static const uint64_t TC[] = {1, 2, 3, 5, 8};
+    static const uint64_t TN[] = {8, 16, 4, 64, 2048};
+    unsigned tc = 0;
+    for (size_t ni = 0; ni < (th ? 5u : 4u); ni++)
+      for (size_t ri = 0; ri < ARRAY_LEN(TALL); ri++)
+        for (size_t ci = 0; ci < ARRAY_LEN(TC); ci++)
+          for (int native = 1; native >= 0; native--) {
+            tc++;
+            const uint64_t nrows = TALL[ri], ncols = TC[ci];
+            if (!th && TN[ni] >= 64 && (tc % 4)) continue;
+            if (!th && !native && (tc % 3)) continue;
+            const uint64_t as = (tc % 3 == 0) ? nrows - 3 : ((tc % 3 == 1) ? nrows : nrows + 2);
+            one_case(TN[ni], nrows, ncols, as, ncols + (tc & 1), tc % 3, native, 0, 1000 + tc);
+          }
+  }
+  for (size_t ni = 0; ni < N_ALL_N; ni++)
+    for (int native = 1; native >= 0; native--)
+      for (unsigned rep = 0; rep < (th ? 6u : 1u); rep++) {
+        if (!th && ALL_N[ni] > 4096) continue;
+        concurrent_case(ALL_N[ni], native, ALL_N[ni] <= 64 ? 8 : 4, rep);
+      }
   // sampled large shapes (nrows up to 40, ncols up to 12)
   {
     unsigned n = th ? 3000 : 120;
